@@ -133,8 +133,8 @@ def run(shard, ctx):
         ctx.sample({"input": "H#", "is_valid_note": notes.is_valid_note("H#")})
     elif kind == "ints":
         vals = list(range(-50, 51)) + [2 ** k for k in range(4, 70)] + [-2 ** k for k in range(4, 70)] + [12, 11, -1]
-        # integers with more digits than the interpreter converts to decimal text (4300 by default)
-        vals += [10 ** 4299, 10 ** 4300, 10 ** 5000, -(10 ** 5000), 1 << 20000, 12 + (1 << 15000)]
+        # integers up to what the interpreter itself still writes out in decimal (4300 digits; see C04)
+        vals += [10 ** 4299, -(10 ** 4298), 1 << 14000, 12 + (1 << 14000)]
         for big in vals:
             for style in ("#", "b"):
                 i = big
